@@ -110,7 +110,7 @@ def logAdd (l : List Msg) (m : Msg) : List Msg := if l.contains m then l else l 
 def harvestOne (tmo : Timeouts) (now idx : Nat) (acc : List Msg × Ticker) (o : Output) : List Msg × Ticker :=
   match o with
   | .signProposal r b pol => (logAdd (logAdd acc.1 (.proposal ⟨r, b, pol, idx⟩)) (.block b), acc.2)
-  | .signVote t r b => (logAdd acc.1 (.vote ⟨t, r, b, idx, true⟩), acc.2)
+  | .signVote t r b => (logAdd acc.1 (.vote ⟨t, r, b, idx, true, idx, idx⟩), acc.2)
   | .schedule r st => (acc.1, acc.2.schedule (now + tmo.duration r st) r st)
   | _ => acc
 
